@@ -128,6 +128,29 @@ def run(ctx):
             if not any(True for k in pairs):
                 clean += 1
                 C.ok('C16-FLOW-lockfail', '%s|lock-failure-precedes-every-mutation' % b.short, 'every exit that can carry the lock error precedes the first mutation', sample={'fn': b.short, 'status': 'lock errors only before the first mutation'} if clean % 4 == 1 else None)
+    # ---- check-then-act under one guard ------------------------------------------------------------
+    # get_or_create*: "is there such a sub element?" and "create it" are ONE step for every other thread: the scan of the content list that
+    # answers the question happens with the write guard held that the creation uses. (Answered before the lock is taken, two threads both
+    # find nothing and both create: two sub elements where any serial order gives one.)
+    C.rule('C16-MUST-atomic', 'in get_or_create_sub_element / get_or_create_named_sub_element the write lock acquisition dominates a scan of ElementRaw.content which dominates the creating call; no lookup result obtained before the lock decides')
+    from pairing import calls as _calls
+    from flow import deep_sources as _ds, iter_uses as _iu, is_local_op as _ilo
+    from ir import has_field as _hf
+    for fn in ('Element::get_or_create_sub_element', 'Element::get_or_create_named_sub_element'):
+        b = P.find(fn)
+        if b is None:
+            C.anchor_missing('C16-MUST-atomic', fn)
+            continue
+        lk = _calls(b, r'RwLock::<R, T>::(write|try_write|try_write_for|try_write_until|upgradable_read|try_upgradable_read\w*)$')
+        cr = _calls(b, r'ElementRaw>?::create_(named_)?sub_element(_inner)?$')
+        scans = [pos for pos, role, pl, st in _iu(b) if _ilo(pl) and _hf(pl, 'ElementRaw.content')]
+        scans += _calls(b, r'ElementRaw>?::(get_sub_element|get_named_sub_element|sub_elements)\w*$')
+        ok = bool(lk) and bool(cr) and all(any(b.pos_dominates(l_, c_) and any(b.pos_dominates(l_, s_) and b.pos_dominates(s_, c_) for s_ in scans) for l_ in lk) for c_ in cr)
+        # a lookup through the public (separately locking) accessor before the lock must not be what returns the existing element while
+        # the locked region creates without looking again - covered by the requirement above (a scan under the lock must exist)
+        C.check(ok, 'C16-MUST-atomic', '%s|lookup-and-create-under-one-guard' % fn.split('::')[-1], '%s decides "no such sub element" without holding the write lock that it creates under (no scan of the content list between the lock and the creating call): '
+                'two threads calling it concurrently both find nothing and both create - two sub elements, which no serial order of the two calls produces' % fn, b.where(cr[0]) if cr else '%s:%d' % (b.file, b.line),
+                sample={'fn': fn, 'lock': len(lk), 'scan_under_lock': ok, 'create_calls': len(cr)})
     C.floor('C16-FLOW-lockfail.lock-error-functions', len(can), 20)
     C.extra['pairs_examined'] = n_all
     C.extra['pairs_with_lock_error_exit'] = n
